@@ -93,6 +93,9 @@ pub struct ActorView {
     pub spawned: Option<u64>,
     /// earliest stamp at which any possible termination cause was issued (conservative)
     pub first_cause: u64,
+    /// the same without the actor's own task end: the earliest thing *outside* the actor's own dying that
+    /// could have ended it (u64::MAX: nothing at all)
+    pub first_external_cause: u64,
     /// stamps of explicit stop requests issued (begin stamps) with their op index in `ops`
     pub stop_reqs: Vec<usize>,
     /// ctx.stop() stamps (ok ones)
@@ -123,7 +126,7 @@ impl<'a> View<'a> {
         let mut inv_idx: BTreeMap<u32, usize> = BTreeMap::new();
         let mut cbs: Vec<CbRec> = Vec::new();
         let mut actors: Vec<ActorView> =
-            (0..out.actors.len()).map(|_| ActorView { first_cause: u64::MAX, ..Default::default() }).collect();
+            (0..out.actors.len()).map(|_| ActorView { first_cause: u64::MAX, first_external_cause: u64::MAX, ..Default::default() }).collect();
         let mut phase_at = BTreeMap::new();
         for e in &out.hist {
             match &e.kind {
@@ -289,6 +292,15 @@ impl<'a> View<'a> {
     /// Conservative over-approximation of "a termination cause for this actor has been issued":
     /// the earliest stamp of anything that could legitimately make the actor end.
     fn compute_first_causes(&mut self) {
+        let ext = self.first_causes(false);
+        let all = self.first_causes(true);
+        for a in 0..self.actors.len() {
+            self.actors[a].first_cause = all[a];
+            self.actors[a].first_external_cause = ext[a];
+        }
+    }
+
+    fn first_causes(&self, own_end: bool) -> Vec<u64> {
         let n = self.actors.len();
         let mut cause = vec![u64::MAX; n];
         let mut upd = |a: usize, s: u64| {
@@ -335,7 +347,9 @@ impl<'a> View<'a> {
                 }
                 EvKind::CtxOp { actor, op: CtxOpKind::Stop, .. } => upd(*actor, e.stamp),
                 EvKind::TaskEnd { tag: TaskTag::Actor(a), .. } => {
-                    upd(*a, e.stamp);
+                    if own_end {
+                        upd(*a, e.stamp);
+                    }
                     // children and peers of `a` may be released now
                     for (s, spec) in self.case.actors.iter().enumerate() {
                         if spec.parent.is_some_and(|p| p.parent == *a) {
@@ -403,9 +417,7 @@ impl<'a> View<'a> {
                 upd(i.actor, i.enter);
             }
         }
-        for (a, c) in cause.into_iter().enumerate() {
-            self.actors[a].first_cause = c;
-        }
+        cause
     }
 
     fn inv_has_panic_step(&self, i: &InvRec) -> bool {
@@ -422,6 +434,11 @@ impl<'a> View<'a> {
     /// the actor is certainly alive at every stamp < this
     pub fn alive_until(&self, a: ActorId) -> u64 {
         self.actors[a].first_cause
+    }
+
+    /// nothing outside the actor itself could have ended it before this stamp (u64::MAX: nothing ever)
+    pub fn external_cause(&self, a: ActorId) -> u64 {
+        self.actors[a].first_external_cause
     }
 
     /// the actor task has certainly ended at every stamp > this
